@@ -54,8 +54,13 @@ func zzServe(name string, obj bus.Actor, meta object.MetaObject) bus.Proxy {
 	l := newZZListener()
 	srv, err := bus.StandAloneServer(l, bus.Yes{}, bus.PrivateNamespace())
 	sym.Assert(err == nil, "server-started")
+	// an unrelated service first, so that the service under test does not have the same id as its
+	// main object (1): a proxy that swaps the two is then visible
+	_, err = srv.NewService("pad", obj)
+	sym.Assert(err == nil, "pad-service-registered")
 	service, err := srv.NewService(name, obj)
 	sym.Assert(err == nil, "service-registered")
+	sym.Assert(service.ServiceID() != 1, "service-id-differs-from-object-id")
 	cs, ss := zzPipe()
 	l.conns <- ss
 	sym.Quiesce()
